@@ -19,7 +19,17 @@ def step_of(state_text, label):
         raise Inconclusive("unknown action label " + label)
     name, args = m.group(1), m.group(2)
     name = name[:-1] if name.endswith("T") else name
-    cfg = _cfg(parse_tla_state(state_text, only={"cfg"})["cfg"])
+    st = parse_tla_state(state_text, only={"cfg", "pc", "opk", "parked", "cur"})
+    cfg = _cfg(st["cfg"])
+    cur = st["cur"]
+    responded = (cur["trig"] == "open" or (cur["trig"] == "late" and 0 in cur["sent"])
+                 or (cur["trig"] == "m2" and 2 in cur["sent"]))
+    # the receiver is blocked on the current attempt and only the parked sender can unblock it
+    blocked = st["pc"] == "run" and st["opk"] in ("header", "recv") and st["parked"] != 0 and not responded
+    return dict(_step(name, args, cfg), blocked=blocked)
+
+
+def _step(name, args, cfg):
     if name == "NewAttempt":
         return {"a": "att", "s": parse_tla_value(args), "cfg": cfg}
     if name == "Ret":
@@ -27,13 +37,22 @@ def step_of(state_text, label):
     if name == "Begin":
         a = [x.strip().strip('"') for x in args.split(",")]
         return {"a": "op", "op": a[0], "i": int(a[1]), "cfg": cfg}
+    if name == "Park":
+        return {"a": "op", "op": "park", "i": int(args), "cfg": cfg}
+    if name == "Unpark":
+        return {"a": "op", "op": "unpark", "i": 0, "inline": 0, "cfg": cfg}
+    if name == "UnparkInline":
+        return {"a": "op", "op": "unpark", "i": 0, "inline": 1, "cfg": cfg}
+    if name == "NewRPC":
+        return {"a": "op", "op": "newrpc", "i": 0, "cfg": cfg}
     raise Inconclusive("unknown action label " + label)
 
 
 def to_behaviour(steps):
-    return {"cfg": steps[0]["cfg"],
-            "ops": [{"op": s["op"], "i": s["i"]} for s in steps if s["a"] == "op"],
-            "scripts": [s["s"] for s in steps if s["a"] == "att"]}
+    ops = [{"op": s["op"], "i": s["i"], "inline": s.get("inline", 0)} for s in steps if s["a"] == "op"]
+    if steps[-1].get("blocked"):
+        ops.append({"op": "unpark", "i": 0, "inline": 1})   # a prefix must not end with a blocked receiver
+    return {"cfg": steps[0]["cfg"], "ops": ops, "scripts": [s["s"] for s in steps if s["a"] == "att"]}
 
 
 def from_states(states):
@@ -55,7 +74,7 @@ def nontrivial(b):
     return len(b["scripts"]) >= 2
 
 
-def generate(ctx, gencfg, limit, nsim, simdepth=24):
+def generate(ctx, gencfg, limit, nsim, simdepth=24, keep=None, rank=None):
     g = ctx.dump_graph("RetryMC", gencfg)
     raw = ctx.edge_cover(g, step_of, limit=None)
     seen, behs = set(), []
@@ -66,11 +85,15 @@ def generate(ctx, gencfg, limit, nsim, simdepth=24):
             seen.add(k)
             behs.append(b)
     for steps in raw:
-        add(to_behaviour(steps))
+        b = to_behaviour(steps)
+        if keep is None or keep(b):
+            add(b)
+    if rank is None:
+        rank = lambda b: min(len(b["scripts"]), 3)
     if limit is not None and len(behs) > limit:
         # keep the behaviours with retries preferentially (they carry the property), fill with a seeded sample
         ctx.rng.shuffle(behs)
-        behs.sort(key=lambda b: -min(len(b["scripts"]), 3))
+        behs.sort(key=lambda b: -rank(b))
         behs = behs[:limit]
     nedge = len(behs)
     if nsim:
